@@ -158,6 +158,12 @@ Inductive outcome := OK | ERR.
 
 (* the place-holder (no fields) is registered and bound first, so that the fields can refer to
    the struct itself; when a field fails to evaluate the place-holder stays *)
+(* StructBuilder checks the argument count and the shape of the field list only AFTER it registered and
+   bound the place-holder: a malformed declaration leaves the struct with no fields.
+   The bare form (struct S) and a quoted name (struct (quote S) [..]) are spellings of Declare. *)
+Definition declare_bad (st : state) (s : nat) : outcome * state :=
+  (ERR, set_reg st (aset s {| re_gen := GPh (st_clock st); re_defn := Some [] |} (st_reg st))).
+
 Definition declare (st : state) (s : nat) (l : list (nat * texpr)) : outcome * state :=
   let n := st_clock st in
   let reg1 := aset s {| re_gen := GPh n; re_defn := Some [] |} (st_reg st) in
@@ -331,7 +337,8 @@ Inductive op :=
 | DerefSet (id : nat) (v : value)                             (* (derefSet (& v<id>) v) *)
 | Decode (ko : bool) (id s : nat) (args : list (nat * value))  (* (def v<id> (unjson ..)) with/without zKeyOrder *)
 | TakePtr (pid id : nat)                                      (* (def p<pid> (& v<id>)) *)
-| DerefSetP (pid : nat) (v : value).                          (* (derefSet p<pid> v): pointer made earlier *)
+| DerefSetP (pid : nat) (v : value)                           (* (derefSet p<pid> v): pointer made earlier *)
+| DeclareBad (s : nat).   (* malformed declaration: (struct S [..] extra) / (struct S 5) / (struct S [5]) *)
 
 (* every Go panic site of these routes is gone (d20da0f), so all routes report alike *)
 Definition of_verdict (vd : verdict) : outcome :=
@@ -440,6 +447,7 @@ Definition step_op (st : state) (o : op) : outcome * state :=
         | _ => (ERR, st)
         end
     end
+  | DeclareBad s => declare_bad st s
   | TakePtr pid id => take_ptr st pid id
   | DerefSetP pid v =>
     match alookup pid (st_ptrs st) with
@@ -631,6 +639,7 @@ Definition spec_step_op (st : state) (o : op) : sverdict * state :=
         | _ => (SRej RsType, st)
         end
     end
+  | DeclareBad s => (SRej RsDefn, snd (declare_bad st s))
   | TakePtr pid id => match take_ptr st pid id with (OK, st') => (SOk, st') | (_, st') => (SRej RsNoVar, st') end
   | DerefSetP pid v =>
     match alookup pid (st_ptrs st) with
@@ -731,6 +740,7 @@ Definition clean (st : state) (o : op) : bool :=
     end
   | Decode ko id s args => fresh_id st id && forallb (fun kv => value_clean st (snd kv)) args
   | TakePtr _ _ => true
+  | DeclareBad _ => true
   | DerefSetP pid v =>
     match alookup pid (st_ptrs st), v with
     | Some (id, _), VInst j =>
